@@ -304,7 +304,12 @@ async fn conn_task(host: String, mut s: TcpStream) {
                 break;
             }
             Err(ReadErr::Garbage(e)) => {
-                let _ = s.write_all(&proto::error_response("FATAL", "08P01", &format!("invalid message: {}", e)).bytes()).await;
+                simcore::log::world(|| format!("mock.garbage {} pid {} {}", host, pid, e));
+                // whatever was held back for this batch goes out first, as a real server's buffer would
+                let mut out = std::mem::take(&mut pending_out);
+                out.extend(proto::error_response("FATAL", "08P01", &format!("invalid message: {}", e)).bytes());
+                // the peer may itself be blocked writing the rest of its garbage: do not wait for it
+                let _ = tokio::time::timeout(Duration::from_millis(200), s.write_all(&out)).await;
                 how = "fatal";
                 break;
             }
